@@ -61,6 +61,8 @@ Case (driver "via"):
                              differing in the port only / in the host only / altogether
      ["t_attach", a, b]      as above
      ["x_set_other"]         state.set_attacher(<a user attacher>) while the internal one is installed
+     ["s_ack"]               (case field "hold_setconf": true) tor's answer to SETCONF __LeaveStreamsUnattached=1
+                             arrives; until then only further v_connect steps happen (anything else lets it arrive)
      ["v_drop", k]           if k%4 == 0: connection k//4's SOCKS connection is reset before tor has read a request
                              (no stream ever)
   u_new variant b%7 == 6: the unrelated connection re-uses the local host:port of a via connection whose SOCKS
@@ -106,7 +108,8 @@ RULE = ("Model-based, two generated families over the reference tor world (snaps
         "reply, end of the connection), interleaved with unrelated streams to the same target whose source differs "
         "in port or host only - or is the very local address of a via connection that is closed by now (reset "
         "before tor read a request, failed because its circuit closed first, refused, or succeeded and ended) - "
-        "and with the circuits building/closing. Oracle: ATTACHSTREAM lines per stream id, attacher "
+        "and with the circuits building/closing; the answer to the first connect's SETCONF may be under way "
+        "while further connects start. Oracle: ATTACHSTREAM lines per stream id, attacher "
         "consultations, error reports, SETCONF __LeaveStreamsUnattached lines, RuntimeError on a second "
         "attacher, outcome of every connect. Non-trivial = ('attacher') >=3 judged new streams and (an answer "
         "delivered at a later step or >=3 different answer classes); ('via') >=2 connects whose SOCKS "
@@ -124,7 +127,9 @@ ASSUMPTIONS = [
     "merely contain '.exit', are ordinary attachable targets; upper-case '.EXIT' is not generated",
     "for a *.exit target only 'no ATTACHSTREAM' is checked (whether the attacher is consulted is free)",
     "a stream first seen in a status other than NEW/NEWRESOLVE (its NEW fell between the snapshot and "
-    "SETEVENTS) may get zero or one decision of any kind and zero or one consultation",
+    "SETEVENTS) may get zero or one decision of any kind and zero or one consultation - except one first seen "
+    "as CLOSED or FAILED: it is gone, so no ATTACHSTREAM may name it (whether the attacher is asked is free); "
+    "the CLOSED line tor prints after FAILED for the same connection is not a new stream either",
     "after a DETACHED event for a stream, one further consultation/decision per DETACHED is tolerated "
     "(tor waits for the controller again); the current code makes none",
     "an answer that arrives after its stream was reported CLOSED/FAILED may or may not be sent, and an invalid "
@@ -176,12 +181,12 @@ ASSUMPTIONS = [
 ANSWER_KINDS = ["built", "built", "none", "dna", "other", "gone", "unknown", "noncirc", "raise"]
 SUB_KINDS = ["none", "none", "built", "dna", "other", "noncirc"]
 WORLD_OPS_A = {"c_launch": 2, "c_extend": 1, "c_built": 1, "c_guard_wait": 1, "c_close": 3, "c_cannibalize": 2,
-               "c_progress": 9, "s_remap": 2, "s_succeeded": 3, "s_detach": 2, "s_close": 2, "s_fail": 1,
-               "z_close": 1, "s_controller_wait": 2}
+               "c_progress": 9, "s_remap": 2, "s_succeeded": 3, "s_detach": 2, "s_close": 2, "s_fail": 3,
+               "z_close": 3, "s_controller_wait": 2}
 # between the snapshot and SETEVENTS only stream events are lost (a lost CIRC event would leave TorState with a
 # stale circuit list for good, which is C07's subject, not this one's)
 WINDOW_WEIGHTS = {"s_new": 5, "s_progress": 6, "s_sent": 2, "s_succeeded": 2, "s_remap": 1, "s_detach": 2,
-                  "s_close": 1, "s_fail": 1, "z_close": 1}
+                  "s_close": 1, "s_fail": 3, "z_close": 1}
 EXIT_TARGETS = ["www.example.com.alpha.exit:80", "10.0.0.0.$E11D2B2269CC25E67CA6C9FB5843497539A74FD0.exit:80",
                 "example.org.bravo.exit:443"]
 EXIT_RESOLVE = ["www.example.com.alpha.exit:0"]
@@ -218,7 +223,7 @@ def _steps(world_ops, own, min_size, max_size):
 OWN_A = {"n_new": (7, 4), "d_fire": (4, 2), "d_fresh": (2, 3), "s_ack": (2, 0), "x_set": (1, 1), "t_attach": (3, 2),
          "p_remove": (1, 1), "p_add": (2, 1), "x_via": (1, 1)}
 OWN_B = {"v_connect": (3, 3), "v_advance": (8, 1), "u_new": (4, 3), "t_attach": (4, 2), "x_set_other": (1, 0),
-         "v_drop": (1, 1)}
+         "v_drop": (1, 1), "s_ack": (1, 0)}
 WORLD_OPS_B = dict(WORLD_OPS_A, c_progress=6, s_succeeded=5)
 
 
@@ -270,10 +275,17 @@ def via_cases():
     steps = st.one_of(_steps(WORLD_OPS_B, OWN_B, 0, 14), _steps(WORLD_OPS_B, OWN_B, 15, 50),
                       _steps(WORLD_OPS_B, OWN_B, 30, 80))
     return st.builds(
-        lambda m, big, pre, s: {"modern": m, "big_ids": big, "pre": pre, "steps": s},
+        lambda m, big, pre, s, hold: {"modern": m, "big_ids": big, "pre": pre,
+                                      "steps": (hold[1] + s) if hold[0] else s, "hold_setconf": hold[0]},
         st.booleans(), st.sampled_from([False, False, False, True]),
         _pre(24),
-        steps)
+        steps,
+        # tor's answer to the first connect's SETCONF is under way while further connects start
+        st.one_of(st.just((False, [])), st.just((False, [])),
+                  st.tuples(st.just(True),
+                            st.lists(st.sampled_from([["v_connect", 0, 0, 0], ["v_connect", 1, 1, 1],
+                                                      ["v_connect", 0, 2, 7], ["v_connect", 2, 3, 130], ["s_ack"]]),
+                                     max_size=4))))
 
 
 # --------------------------------------------------------------------------- records
@@ -339,6 +351,7 @@ class Conn(object):
         self.open_at = None             # step index at which its SOCKS connection was made
         self.announced_at = None
         self.status_at_new = None       # 'BUILT' | 'live' | 'gone'
+        self.built_at_call = False      # its circuit was live and BUILT when connect() was called
         self.reused = False             # an unrelated stream re-used its local address after it was closed
 
 
@@ -654,6 +667,12 @@ class Run(object):
                 res.bad("exit-target-attached", "%s: %r" % (where, [x[0] for x in lines]))
             if len(rec.consults) > 1:
                 res.bad("consulted-more-than-once", "%s: asked %d times" % (where, len(rec.consults)))
+            return
+        if rec.first_status in ("CLOSED", "FAILED"):
+            # the only thing the controller ever heard of it is that it is gone: nothing to decide
+            res.label("stream:first-seen-" + rec.first_status)
+            if got:
+                res.bad("decision-for-a-stream-first-seen-gone", "%s: %r" % (where, [x[0] for x in lines]))
             return
         if rec.first_status not in ("NEW", "NEWRESOLVE"):
             res.label("stream:first-seen-mid-life")
@@ -1402,6 +1421,13 @@ class ViaRun(Run):
 
     def step(self, s):
         op = s[0]
+        if op == "s_ack":
+            if self.ack_setconf():
+                self.res.label("via:late-setconf-answer-arrives")
+            self.tor_socks_side()
+            return
+        if op != "v_connect" and self.world.held_setconf:
+            self.release_all_setconf()          # tor's answers precede whatever tor says or does later
         if op in WORLD_OPS_B:
             self.world_step(s)
         elif op == "v_connect":
@@ -1498,6 +1524,9 @@ class ViaRun(Run):
             self.res.bad("via/leave-unattached-switched-off", "connect wrote %r" % (
                 [x[0] for x in self.world.setconf_log[n0:]],))
         self.res.label("via:connect-on-" + ("gone-circuit" if m.gone else str(m.status)))
+        conn.built_at_call = m.gone is None and m.status == "BUILT"
+        if self.world.held_setconf:
+            self.res.label("via:connect-started-while-setconf-answer-under-way" + ("" if first else "/not-the-first"))
         self.note_open(conn)
 
     def note_open(self, conn):
@@ -1672,6 +1701,7 @@ class ViaRun(Run):
             return
         # everything tor has sent arrives
         self.step_no = len(self.case["steps"])
+        self.release_all_setconf()
         for conn in self.conns:
             guard = 0
             while conn.rec is not None and conn.sock.pending and not conn.sock.lost and guard < 10:
@@ -1698,6 +1728,11 @@ class ViaRun(Run):
             socks_ok = conn.replied == "success" and conn.reply_delivered
             out = "pending" if w.fired == 0 else ("failed" if w.failed else "succeeded")
             res.label("via:connect-" + out)
+            if conn.built_at_call and conn.sock.factory is None:
+                # nothing stood in its way (circuit BUILT, tor accepted the SETCONF), yet it never even tried
+                res.bad("via/connect-gave-up-before-opening-its-socks-connection",
+                        "%s is %s (%r) and never opened its SOCKS connection although its circuit was BUILT when "
+                        "connect() was called" % (where, out, w.outcome()[:3]))
             if out == "succeeded" and not (own and socks_ok):
                 res.bad("via/connect-succeeded-without-own-attachment",
                         "%s succeeded although its stream %s and the SOCKS reply was %s/%s" % (
@@ -1877,6 +1912,14 @@ MUTANTS = [
     ("falsy-answer-taken-for-no-preference", "txtorcon/torstate.py",
      "            if circ is None:\n                # tell Tor to do what it likes\n",
      "            if not circ:\n                # tell Tor to do what it likes\n"),
+    ("stream-first-seen-gone-offered-to-the-attacher", "txtorcon/torstate.py",
+     "        if wasnew and stream_id in self.streams:\n            self._maybe_attach(self.streams[stream_id])",
+     "        if wasnew:\n            self._maybe_attach(stream)"),
+    ("via-singleton-published-only-after-the-setconf-answer", "txtorcon/circuit.py",
+     "        _get_circuit_attacher.attacher = _CircuitAttacher()\n"
+     "        yield state.set_attacher(_get_circuit_attacher.attacher, reactor)\n",
+     "        attacher = _CircuitAttacher()\n        yield state.set_attacher(attacher, reactor)\n"
+     "        _get_circuit_attacher.attacher = attacher\n"),
     ("attachstream-names-the-wrong-stream", "txtorcon/torstate.py",
      '                    u"ATTACHSTREAM {} {}".format(stream.id, circ.id).encode("ascii")',
      '                    u"ATTACHSTREAM {} {}".format(circ.id, stream.id).encode("ascii")'),
